@@ -553,4 +553,8 @@ R.add('L18.6', l186, [{}], replay=replay_l186,
               'close() writes one final Close frame: status (2 bytes) ++ reason'],
       bounds='text of symbolic length with utf-8 length <= 200000 (all three length forms); close status 0..65535, reason <= 100 bytes')
 
+for _lid in ['L18.1', 'L18.2', 'L18.3', 'L18.4', 'L18.5', 'L18.6']:
+    if _lid in R.lemmas:
+        R.lemmas[_lid].api = True
+
 get_harness = R.get_harness
